@@ -152,6 +152,7 @@ CHOICE = EXT("choice")
 CT = "Cx.Impl.CT"
 CT_METHODS = {
     ("choice", "is_true"): Fn(f"{CT}.Choice.isTrue {{self}}", ret=BOOL, self_mode="val"),
+    ("choice", "is_false"): Fn(f"{CT}.Choice.isFalse {{self}}", ret=BOOL, self_mode="val"),
     ("choice", "negate"): Fn(f"{CT}.Choice.negate {{self}}", ret=CHOICE, self_mode="val"),
     # `impl CtEqual for &[u8; N]` (tied by Props/C18KernelTie.lean)
     ("[u8]", "ct_eq"): Fn(f"{CT}.array_u8_ct_eq {{self}} {{0}}", [("ref", BYTES)], ret=CHOICE, self_mode="val"),
@@ -466,8 +467,65 @@ def muladd_kernels():
     ]
 
 
+# ================================================================================================= extras: other leftovers of tie_coverage
+def sha2_out_kernels():
+    """the `#[allow(dead_code)]` fixed-size output functions of eng256.rs / eng512.rs (the `_at` forms the contexts use are tied by GlueTieMd)"""
+    FB = "Cx.Impl"
+    ks = []
+    for nm, F, w, outs in [("Eng256", "src/hashing/sha2/eng256.rs", 32, ("output_224bits", "output_256bits")),
+                           ("Eng512", "src/hashing/sha2/eng512.rs", 64, ("output_224bits", "output_256bits", "output_384bits", "output_512bits"))]:
+        W = World(
+            structs={"Engine": Struct(f"Cx.Impl.Sha2.{nm}.Engine", {"h": (("view", "{0}.h.toList"), LIST(U(w), 8))})},
+            fns={"write_u32v_be": Fn(f"{FB}.write_u32v_be {{0}}.length {{1}}", [("mut", BYTES), ("ref", LIST(U32))], fallible=True),
+                 "write_u64v_be": Fn(f"{FB}.write_u64v_be {{0}}.length {{1}}", [("mut", BYTES), ("ref", LIST(U64))], fallible=True),
+                 "write_u32_be": Fn(f"{FB}.write_u32_be {{0}}.length {{1}}", [("mut", BYTES), ("val", U32)], fallible=True)})
+        ks.append(ns(f"Sha2{nm}"))
+        ks.append(RK(W, kind="struct", file=F, scope=r"pub\(super\) struct Engine\b", lean_name="Engine_struct_src",
+                     expect=f"pub(super) struct Engine {{ h: [u{w}; STATE_LEN], }}"))
+        ks.append(RK(W, kind="struct", file=F, scope=r"pub\(super\) const STATE_LEN\b", lean_name="STATE_LEN_src",
+                     expect="pub(super) const STATE_LEN: usize = 8;"))
+        for fn in outs:
+            ks.append(RK(W, file=F, fn=fn, scope=r"impl Engine\s*\{", self_ty=STRUCT("Engine"), owner="Engine", lean_name=f"{fn}_src",
+                         doc="dead code (`#[allow(dead_code)]`): the fixed-size form of the `_at` function"))
+        ks.append(end(f"Sha2{nm}"))
+    return ks
+
+
+def extra_kernels():
+    FR, FS, F512 = "src/chacha/reference.rs", "src/simd.rs", "src/hashing/sha2/impl512/reference.rs"
+    # chacha/reference.rs `output_ad_bytes`: `state: [u32; 16]` is the model's W16 record, read through its list view
+    WR = World(
+        structs={"State": Struct("Cx.Impl.W16", {"state": (("view", "{0}.toList"), LIST(U32, 16))})},
+        fns={"write_u32v_le": Fn("write_u32v_le {0} {1}", [("mut", BYTES), ("ref", LIST(U32))], fallible=True)})
+    # simd.rs (the portable `fake` module): lane-wise operators of `u32x4` / `u64x2`
+    X4, X2 = STRUCT("u32x4"), STRUCT("u64x2")
+    WS = World(structs={
+        "u32x4": Struct("Cx.Impl.Sha1.u32x4", {str(i): ([f"x{i}"], U32) for i in range(4)}, ctor=("(⟨{0}, {1}, {2}, {3}⟩ : Cx.Impl.Sha1.u32x4)", [U32] * 4)),
+        "u64x2": Struct("Cx.Impl.Sha2.Impl512.u64x2", {str(i): ([f"_{i}"], U64) for i in range(2)}, ctor=("(⟨{0}, {1}⟩ : Cx.Impl.Sha2.Impl512.u64x2)", [U64] * 2))})
+    W5 = World()
+    ks = [ns("ChaChaRef"),
+          RK(WR, kind="struct", file=FR, scope=r"pub\(crate\) struct State<", lean_name="State_struct_src",
+             expect="pub(crate) struct State<const ROUNDS: usize> { state: [u32; 16], }"),
+          RK(WR, file=FR, fn="output_ad_bytes", scope=r"impl<const ROUNDS: usize> State<ROUNDS>\s*\{", self_ty=STRUCT("State"), owner="State",
+             lean_name="output_ad_bytes_src", doc="words 0..4 and 12..16 (HChaCha output)"),
+          end("ChaChaRef"),
+          ns("Simd")]
+    for tr_, fn in [("Add", "add"), ("Sub", "sub"), ("BitAnd", "bitand"), ("BitOr", "bitor"), ("BitXor", "bitxor")]:
+        ks.append(RK(WS, file=FS, fn=fn, scope=rf"impl {tr_} for u32x4\s*\{{", self_ty=X4, owner=f"u32x4.{tr_}", lean_name=f"u32x4.{fn}_src"))
+    for tr_, fn, nm in [("Shl<usize>", "shl", "shl_usize"), ("Shl<u32x4>", "shl", "shl_lanes"), ("Shr<usize>", "shr", "shr_usize"), ("Shr<u32x4>", "shr", "shr_lanes")]:
+        ks.append(RK(WS, file=FS, fn=fn, scope=rf"impl {re.escape(tr_)} for u32x4\s*\{{", self_ty=X4, owner=f"u32x4.{tr_}", lean_name=f"u32x4.{nm}_src",
+                     doc="shift amounts ≥ 32 panic (overflow check of the amount)"))
+    ks.append(RK(WS, file=FS, fn="add", scope=r"impl Add for u64x2\s*\{", self_ty=X2, owner="u64x2.Add", lean_name="u64x2.add_src"))
+    ks += [end("Simd")] + sha2_out_kernels() + [
+           ns("Sha512Ref"),
+           RK(W5, file=F512, fn="sigma0", scope=r"fn schedule_x2\(v0: u64x2, v1: u64x2, v4to5: u64x2, v7: u64x2\) -> u64x2\s*\{", lean_name="sigma0_src"),
+           RK(W5, file=F512, fn="sigma1", scope=r"fn schedule_x2\(v0: u64x2, v1: u64x2, v4to5: u64x2, v7: u64x2\) -> u64x2\s*\{", lean_name="sigma1_src"),
+           end("Sha512Ref")]
+    return ks
+
+
 KERNELS = (blake2_hooks("b", 64) + blake2_hooks("s", 32) + md_hooks() + poly_hooks() + ct_kernels() + tag_kernels() + chacha_kernels()
-           + keccak_kernels() + load_kernels() + scalar32_kernels() + fe32_kernels() + misc_kernels() + muladd_kernels())
+           + keccak_kernels() + load_kernels() + scalar32_kernels() + fe32_kernels() + misc_kernels() + muladd_kernels() + extra_kernels())
 
 HEADER = """import CxVerif.Impl.Blake2
 import CxVerif.Impl.Sha1
@@ -481,6 +539,9 @@ import CxVerif.Impl.Scalar32
 import CxVerif.Impl.Fe32
 import CxVerif.Impl.Argon2
 import CxVerif.Impl.Kdf
+import CxVerif.Impl.Sha1
+import CxVerif.Impl.StreamCtx
+import CxVerif.Impl.FixedBuffer
 /-!
   Extracted.GlueRest — GENERATED by tools/ktx_glue_rest.py (kernel specs tools/kernels/glue_rest.py) from the CURRENT Rust source.
   The definitions before `-- translated functions` are the fixed run-time library of the translation; they do not depend on the
@@ -547,6 +608,13 @@ def read_u32v_le_vec (n : Nat) (input : Bytes) : Option (Vector UInt32 n) :=
 /-- `cryptoutil::read_u32_le` / `write_u32_le`: `<&[u8; 4]>::try_from(..).unwrap()` -/
 def read_u32_le (b : Bytes) : Option UInt32 := if b.length = 4 then some (leU32 b) else none
 def write_u32_le (dst : Bytes) (w : UInt32) : Option Bytes := if dst.length = 4 then some (u32le w) else none
+
+/-- `cryptoutil::write_u32v_le(dst, input)`: `assert!(dst.len() == 4 * input.len())`, little-endian words -/
+def write_u32v_le (dst : Bytes) (input : List UInt32) : Option Bytes :=
+  if dst.length = 4 * input.length then some (input.flatMap u32le) else none
+/-- `a << n`, `a >> n` on `u32` by a run-time amount -/
+def shlW32 (a : UInt32) (n : Nat) : Option UInt32 := if n < 32 then some (a <<< UInt32.ofNat n) else none
+def shrW32 (a : UInt32) (n : Nat) : Option UInt32 := if n < 32 then some (a >>> UInt32.ofNat n) else none
 
 /-- `pub struct CtOption<T> { present: Choice, t: T }` (src/constant_time.rs; the declaration is checked by `CT.CtOption_struct_src`) -/
 structure CtOption (α : Type) where
